@@ -480,6 +480,12 @@ class SequenceBasedRoutingProblem(RoutingProblem):
                         used_sequences.append((vi, sii, 0))
                     break
             # end sequence loop
+            # If the route used every position, it still needs an arc back to the depot
+            arc = (current_node, 0)
+            if current_node != 0 and not self.check_arc(arc):
+                node_nm = self.node_names[current_node]
+                self.add_arc(node_nm, depot_nm, 0, 0)
+                logger.info("Adding arc %s -- %s", node_nm, depot_nm)
         # end vehicle loop
 
         for ni in unvisited_indices:
